@@ -39,8 +39,11 @@ D15_KEY = 'scope|dns/packet.rs|Packet::write_compressed_to|requires io_buf(old(o
 D15_TEXT = ('compressed writers record absolute stream positions as pointer targets and restore the position with SeekFrom::End(0): '
             'the output is only correct when the writer starts empty at position 0 (contract precondition); the property also demands '
             'non-zero starting offsets and pre-filled storage')
+D16_KEY = 'scope|dns/packet.rs|Packet::pkt_canon|header.opt is None ==> rcode_code(response_code) < 16'
+D16_TEXT = ('the round-trip lemma needs `opt is None ==> response code < 16`: a 12-bit response code set on a packet without EDNS data is '
+            'written as its low nibble and reads back as a different code (replay/d16_demo.rs)')
 VERUS_NOTE = ("trusted: Verus/Z3, vstd specs of std, the assume_specification/external_body items listed in the evidence's trusted_base, "
-              "the six syntactic normalisations R1-R6, slices <= isize::MAX; truncating `as` casts are caught only via functional post-conditions")
+              "the syntactic normalisations R1-R12 (DESIGN.md 8.3), slices <= isize::MAX; truncating `as` casts are caught only via functional post-conditions")
 KANI_NOTE = "trusted: Kani/CBMC; harness reference tables written from the RFCs/IANA registry (kani/harness.rs, contracts/schema.py)"
 
 PROPS = {
@@ -48,13 +51,13 @@ PROPS = {
             'technique': 'Verus contracts on every parse-path function of the real crate (panic-freedom, termination, cursor discipline, allocation bound) + loop-free Kani harnesses for the header-peek functions',
             'text': 'proof for all inputs: every index, slice range, arithmetic operation, unwrap and loop of the parse path is a discharged Verus obligation on the real function bodies (in-situ annotation); header peeks are a complete loop-free CBMC proof over all buffers of length 0..=13',
             'note': VERUS_NOTE + '; ' + KANI_NOTE + '; the allocator and Vec growth policy are not modelled (allocation is bounded through with_capacity arguments and one push per consumed byte)'},
-    'C02': {'standin': ['roundtrip', 'txt'], 'verus': True, 'kani': ['header_write_layout'],
+    'C02': {'standin': ['roundtrip', 'txt'], 'verus': True, 'kani': ['header_write_layout'], 'scope_findings': [(D16_KEY, D16_TEXT)],
             'technique': 'Verus: encoder/decoder pair contracts per wire element (ghost wf_enc / wf_dec from the RFCs) on the real write_to / parse bodies, Packet::write_to proved to emit header + sections; round-trip lemmas for names; Kani for the header word',
-            'text': 'proof per element: every write_to emits exactly wf_enc, every parse accepts exactly what wf_dec describes; the name round-trip lemma (decode(pre+encode(n)+post) == n) is proved; the per-type and packet-level composition decode(encode(p)) == p is stated over these contracts but not yet machine-checked as one lemma',
-            'note': VERUS_NOTE + '; ' + KANI_NOTE + '; Name::len / OPT::len / SVCB::len and the writers of TXT SVCB NSEC IPSECKEY NSAP are assumed (external_body) in this version'},
+            'text': 'proof for all packets within limits (pkt_ok && pkt_canon): (1) Packet::write_to / build_bytes_vec emit exactly pkt_enc(p) and, as a post-condition, pkt_enc(p) decodes to p (lemma_plain_rt: per-type round-trip lemmas lifted to sections and to the message, OPT record and 12-bit response code included); (2) Packet::parse returns only packets that the message decodes to; (3) the decoding relation is a function of the bytes up to observable equality (lemma_det per type, lemma_dec_det for packets: ids, flags, opcode, response code, EDNS data, every record field). Hence whatever parse returns for build_bytes_vec(p) is observably equal to p. Not proved: that parse returns Ok on those bytes (parser completeness is proved for names only; bounded stand-in `roundtrip`), and that observable equality coincides with the derived PartialEq (assumed structural)',
+            'note': VERUS_NOTE + '; ' + KANI_NOTE + '; SVCB / NSEC writers, len and round-trip lemmas are assumed (BTreeMap iteration / sort_by are outside Verus); known finding D16 (response code > 15 without EDNS)'},
     'C03': {'standin': ['roundtrip'], 'verus': True, 'kani': [],
             'technique': 'Verus: Name::compress_append (real body) proved against the RFC 1035 decoder with a ghost invariant on the suffix table; every compressed writer (Question, ResourceRecord incl. the RDLENGTH seek back-patch, RData, wrappers, the eight typed overrides SOA MX MINFO RP AFSDB RT HINFO ISDN, Packet::write_compressed_to) proved to emit bytes that decode to the very value written and are never longer than the plain encoding; default writers via generated per-type round-trip lemmas',
-            'text': 'proof for all packets within DNS size limits written at stream origin 0: Packet::write_compressed_to yields a message m with pkt_dec(m) == the packet (same relation that Packet::parse establishes) and |m| <= |plain encoding|; offsets >= 16384 are never recorded as pointer targets (obligation `pos < 0x4000`). The RDLENGTH seek-back patch is covered by a window clause carried by every compressed writer (facts hold on every buffer that differs only inside a not-yet-patched RDLENGTH slot); no proof step is assumed',
+            'text': 'proof for all packets within DNS size limits written at stream origin 0: Packet::write_compressed_to yields a message m with pkt_dec(m) == the packet (same relation that Packet::parse establishes) and |m| <= |plain encoding|; offsets >= 16384 are never recorded as pointer targets (obligation `pos < 0x4000`). The RDLENGTH seek-back patch is covered by a window clause carried by every compressed writer (facts hold on every buffer that differs only inside a not-yet-patched RDLENGTH slot); no proof step is assumed. Both outputs decode to p (write_to: lemma_plain_rt) and the decoding relation is deterministic (lemma_dec_det), so whatever parse returns for either is observably equal to p and to each other',
             'note': VERUS_NOTE + '; HashMap key model for &[Label]; writer must start at stream position 0 (known finding D15 otherwise)'},
     'C07': {'standin': ['roundtrip'], 'verus': True, 'kani': [], 'scope_findings': [(D15_KEY, D15_TEXT)],
             'technique': 'Verus: post-condition of Name::compress_append (every recorded target < 0x4000, inside the message, decoding to the suffix; pointer emitted iff the suffix is in the table; a name already in the table is written as 2 bytes) + trait-level obligation that the no-compression types (SRV NAPTR KX RRSIG NSEC IPSECKEY SVCB HTTPS) are written in full',
@@ -62,16 +65,16 @@ PROPS = {
             'note': VERUS_NOTE + '; stream origin must be the message origin (known finding D15)'},
     'C04': {'standin': ['roundtrip', 'txt'], 'verus': True, 'kani': ['header_write_layout'], 'scope_findings': [(D15_KEY, D15_TEXT)],
             'technique': 'Verus: len() == |wf_enc| per type, RDLENGTH = |rdata encoding|, header counts = section lengths (+1 for OPT), all against an abstract std::io::Write contract (emission log + positional buffer), so any writer kind gives the same bytes',
-            'text': 'proof for all packets within DNS size limits and every writer obeying the Write contract: Packet::write_to emits hdr_enc(counts) + sections (+ one OPT record) and nothing else; ResourceRecord::write_to writes RDLENGTH = |RDATA|; errors of the writer propagate through `?` without panics. Packet::write_compressed_to is proved to emit a message that decodes with the header counts, RDLENGTH back-patched to the number of RDATA bytes that follow, and the OPT record exactly once',
-            'note': VERUS_NOTE + '; build_bytes_vec* (Cursor<Vec> wrappers) are not verified; len() of types listed as external_body in the evidence is assumed; compressed writer: stream origin 0 only (known finding D15); TXT size cache set by unverified constructors (TryFrom<&str>) is assumed consistent'},
+            'text': 'proof for all packets within DNS size limits and every writer obeying the Write contract: Packet::write_to emits hdr_enc(counts) + sections (+ one OPT record) and nothing else; ResourceRecord::write_to writes RDLENGTH = |RDATA|; errors of the writer propagate through `?` without panics. Packet::write_compressed_to is proved to emit a message that decodes with the header counts, RDLENGTH back-patched to the number of RDATA bytes that follow, and the OPT record exactly once; the vector-returning entry points return exactly the bytes the writer-based ones emit (same spec function)',
+            'note': VERUS_NOTE + '; build_bytes_vec / build_bytes_vec_compressed are verified against an assumed model of std::io::Cursor<Vec<u8>> (storage = the vector); RDATA > 65535 bytes and sections > 65535 entries are refused (fix 9f3bf1d, obligation oversized-rdata-refused / counts-not-truncated); len() of SVCB / NSEC is assumed; compressed writer: stream origin 0 only (known finding D15); TXT::new / add_char_string are proved to keep the cached size, add_string / with_* are thin unverified wrappers'},
     'C05': {'standin': ['malformed'], 'verus': True, 'kani': [],
             'technique': 'Verus: Packet::parse / parse_section / ResourceRecord::parse / RData::parse / Question::parse proved against an RFC 1035 envelope spec (chain of entries, RDLENGTH-delimited RDATA, typed content decoded from the message truncated at the RDATA end)',
             'text': 'proof for all byte strings: Ok(p) implies the sections are back-to-back chains of entries starting at offset 12 with the header counts, each record spans name + 10 + RDLENGTH bytes, type/class/ttl/cache-flush are those of the entry, and the cursor after each record is its RDATA end',
             'note': VERUS_NOTE + '; header_buffer count readers are assumed in Verus with the statements proved by the Kani harnesses of C01/C08'},
     'C09': {'standin': ['roundtrip', 'malformed'], 'verus': True, 'kani': ['opt_ttl_layout', 'opt_ttl_parse_side', 'opt_rr_shape'],
             'technique': 'Verus: OPT::parse / write_to against a code-length-value list spec, encode_ttl / extract_rcode_from_ttl against the RFC 6891 TTL layout, ARCOUNT and single OPT record in Packet::write_to, OPT lifting in Packet::parse; Kani loop-free harnesses for the TTL word',
-            'text': 'proof: TTL = ext-rcode<<24 | version<<16, CLASS slot = UDP size, options are exactly the code/length/value triples, the OPT record is written once and counted in ARCOUNT, parsing removes the first OPT record and recombines the 12-bit rcode (for header nibbles that map to named codes)',
-            'note': VERUS_NOTE + '; ' + KANI_NOTE + '; Header::opt_rr (closure + array-to-Name conversion) is assumed with the contract checked by inspection; OPT::len assumed'},
+            'text': 'proof: TTL = ext-rcode<<24 | version<<16, CLASS slot = UDP size, options are exactly the code/length/value triples, the OPT record is written once and counted in ARCOUNT, parsing removes the first OPT record and recombines the 12-bit rcode exactly as ((TTL >> 24) << 4) | code(header nibble) -- now part of the packet decoding relation pkt_dec (rcode_lifted), on both the parse and the write side',
+            'note': VERUS_NOTE + '; ' + KANI_NOTE + '; Header::opt_rr (closure + array-to-Name conversion + derived Clone) is assumed in Verus with exactly the statement that the Kani harness opt_rr_shape proves (bounded in the option list only: empty); OPT::len is proved (R11)'},
     'C06': {'standin': ['malformed'], 'verus': True, 'kani': [],
             'technique': 'Verus: Name::parse proved equivalent to an RFC 1035 4.1.4 spec decoder (loop invariant + lexicographic measure)',
             'text': 'proof for all byte strings and start offsets: Ok(n) iff the spec decoder yields exactly n\'s labels, cursor = start + in-place length, Err iff the spec decoder fails',
@@ -82,14 +85,13 @@ PROPS = {
             'note': KANI_NOTE + '; Packet-level accessors are thin wrappers over Header (by inspection)'},
     'C10': {'verus': True, 'kani': ['type_table_all_codes', 'type_mnemonics'],
             'technique': 'Verus: per-type ghost encoder/decoder generated from an RFC schema (contracts/schema.py); the real parse/write_to/len bodies are proved against them; Kani for the IANA type-code table',
-            'text': 'proof for all inputs for the straight-line types: parse reads exactly the RFC layout (wf_dec), write_to emits exactly the RFC encoding (wf_enc), len equals its size; loop/union types (TXT OPT SVCB NSEC IPSECKEY NSAP) are currently covered for safety only',
+            'text': 'proof for all inputs for the straight-line types: parse reads exactly the RFC layout (wf_dec), write_to emits exactly the RFC encoding (wf_enc), len equals its size; TXT OPT IPSECKEY NSAP NULL are proved against hand-written RFC specs (lists as code-length-value / length-value relations); for SVCB and NSEC only the parsers are proved (writers use BTreeMap iteration / sort_by: assumed). CharacterString::new / TryFrom<&str> are proved to refuse more than 255 bytes',
             'note': VERUS_NOTE + '; ' + KANI_NOTE},
-    'C11': {'standin': ['malformed', 'roundtrip'], 'verus': True, 'level': 'other',
+    'C11': {'standin': ['malformed', 'roundtrip'], 'verus': True,
             'kani': ['header_reserialise_named', 'header_reserialise_reserved'],
-            'technique': 'composition of the deductive contracts (Packet::parse establishes pkt_dec(data, p); every writer is proved to emit bytes that satisfy pkt_dec(output, p) for p within limits and canonical) + a loop-free Kani proof for the header word + a bounded stand-in on the real code for the one step that is not machine-checked (parser output is within limits and canonical)',
-            'text': 'bounded for the composition, proof for the parts: (1) proved: parse => pkt_dec; write_compressed_to => pkt_dec(output, self) and per-element round-trip lemmas for every type, under wf_ok && wf_canon; (2) complete (Kani): header words with named opcode/rcode are re-serialised bit-exactly; reserved ones are not (known finding D11); (3) bounded: that every accepted message yields a packet satisfying wf_ok && wf_canon and re-serialises (plain and compressed) to a message that parses to the same packet is checked on ~40000 accepted/rejected variants of generated messages, not proved',
-            'explanation': 'bounded: the lemma "wf_dec(data, p, v, p2) implies v.wf_ok() && v.wf_canon()" is not yet machine-checked; it is replaced by the stand-in suite `malformed` (every truncation, +-1 and 4 fixed values at every byte of ~45 generated messages < 600 bytes and 20 hand-made pointer graphs: each accepted variant is re-serialised plain and compressed and re-parsed) and `roundtrip`. Deductive parts and the Kani header harnesses are counted under obligations; the stand-in is not.',
-            'note': VERUS_NOTE + '; ' + KANI_NOTE + '; known finding D11 (reserved opcode / rcode values are rewritten); uncompressed RDATA larger than 65535 bytes after pointer expansion is outside wf_ok'},
+            'technique': 'Verus: composition of the deductive contracts, every step machine-checked: Packet::parse establishes pkt_dec(data, p); lemma_parsed_ok (per-type lemma_dec_ok lifted to sections and packets) shows that such a p satisfies the writers\' preconditions; both writers are proved to emit bytes that decode to p; lemma_dec_det shows the decoding relation is deterministic up to observable equality. Kani: loop-free proof for the header word. Stand-in on the real code for what the lemmas do not cover (parser completeness, writer success)',
+            'text': 'proof for every message of at most 65535 bytes that the parser accepts, whose re-encoding is representable (every RDATA <= 65535 bytes after pointer expansion, message <= 65535 bytes: Packet::fits) and whose header does not carry an unnamed RCODE nibble 11..15 without EDNS (known finding D11): the parsed packet p satisfies pkt_ok && pkt_canon (lemma_parsed_ok), so write_to emits pkt_enc(p) which decodes to p and write_compressed_to emits bytes that decode to p; by lemma_dec_det whatever parse returns for either output is observably equal to p (header fields, EDNS data, sections, every record field). Not proved: that the writers return Ok (depends on the io::Write implementation) and that parse returns Ok on their output (parser completeness is proved for names only) -- both exercised by the bounded stand-in. Kani (complete): header words with named opcode/rcode are re-serialised bit-exactly; reserved ones are not (D11)',
+            'note': VERUS_NOTE + '; ' + KANI_NOTE + '; known finding D11 (reserved opcode / rcode values are rewritten); RDATA that grows beyond 65535 bytes when its compressed names are expanded cannot be re-serialised (refused since fix 9f3bf1d) and is outside the lemma (Packet::fits); SVCB / NSEC writers assumed'},
     'C16': {'standin': ['roundtrip', 'malformed'], 'verus': True, 'level': 'other', 'kani': [],
             'technique': 'Verus: into_owned contracts (same ghost view, same serialisation) generated from the RFC schema for the typed RDATA structs and hand-written for NULL NSAP IPSECKEY, the rr_wrapper types, RData, Question, ResourceRecord; bounded stand-in on the real code for the iterator-based bodies (Name, Label, CharacterString, TXT, OPT, NSEC, SVCB) and for the Eq/Hash agreement',
             'text': 'proof for 30+ into_owned functions: every field of the owned copy has the same view and the copy has the same wf_enc (serialises identically), given the assumed contracts of the seven iterator/Into-based bodies; bounded: those seven bodies and the clause "values that compare equal hash equally" (Name, ResourceRecord incl. records differing only in ttl / cache-flush) are exercised on the generated corpus, not proved. InstanceInformation (simple-mdns, HashSet iteration order) is not covered',
